@@ -1,6 +1,7 @@
 package checks
 
 import (
+	"regexp"
 	"encoding/json"
 	"fmt"
 	"runtime/debug"
@@ -415,6 +416,7 @@ func panicSite() string {
 	st := string(debug.Stack())
 	lines := strings.Split(st, "\n")
 	seenPanic := false
+	site := ""
 	for _, l := range lines {
 		if strings.HasPrefix(l, "panic(") {
 			seenPanic = true
@@ -425,11 +427,26 @@ func panicSite() string {
 			if i := strings.LastIndex(f, "("); i > 0 {
 				f = f[:i]
 			}
-			return f
+			if site == "" {
+				site = f
+				if f != "newSchemaValidator" {
+					return site
+				}
+				continue
+			}
+			if f != site && !strings.HasSuffix(site, f) {
+				// the constructor is reached from many places: its caller is the call site
+				return site + " called from " + f
+			}
 		}
+	}
+	if site != "" {
+		return site
 	}
 	return "?"
 }
+
+var c07quoted = regexp.MustCompile(`"[^"]*"`)
 
 // c07class abstracts a panic text + top frame into a root-cause class.
 func c07class(p string) string {
@@ -440,7 +457,15 @@ func c07class(p string) string {
 		p = p[:i]
 	}
 	if i := strings.Index(p, "Invalid schema provided to SchemaValidator"); i >= 0 {
-		p = p[:i+len("Invalid schema provided to SchemaValidator")] // the rest names the unresolvable reference
+		// the rest names the unresolvable reference: keep the kind of failure, drop the names
+		rest := c07quoted.ReplaceAllString(p[i+len("Invalid schema provided to SchemaValidator"):], `"…"`)
+		rest = strings.NewReplacer("object has no key", "object has no member", "object has no field", "object has no member").Replace(rest)
+		for _, cut := range []string{"open /", ": open "} {
+			if j := strings.Index(rest, cut); j >= 0 {
+				rest = rest[:j] + " (file reference)"
+			}
+		}
+		p = p[:i+len("Invalid schema provided to SchemaValidator")] + rest
 	}
 	for _, cut := range []string{" 0x", "[recovered]", "open /", ": open "} {
 		if i := strings.Index(p, cut); i > 0 {
